@@ -669,6 +669,8 @@ def make_builtins(interp):
     for n in ["ValueError", "TypeError", "RuntimeError", "ArithmeticError", "LookupError",
               "AttributeError", "StopIteration", "AssertionError", "OSError", "ImportError"]:
         exc(n, "Exception")
+    exc("NameError", "Exception")
+    exc("UnboundLocalError", "NameError")
     exc("ZeroDivisionError", "ArithmeticError")
     exc("OverflowError", "ArithmeticError")
     exc("KeyError", "LookupError")
@@ -735,6 +737,8 @@ class Exec:
             return b[name]
         if name in BUILTIN_FUNCS:
             return BUILTIN_FUNCS[name]
+        if self.func is not None and name in _local_names(self.func.node):
+            raise PyRaise(make_exc(self.interp, "UnboundLocalError", f"cannot access local variable '{name}' where it is not associated with a value"))
         raise OutsideSubset(f"unresolved name {name} in {self.qual}")
 
     # ---- statements ------------------------------------------------------------------
@@ -1090,6 +1094,7 @@ class Exec:
             if not hasattr(it, "_pv_generic"):
                 raise OutsideSubset(f"loop spec on non-generic iterable in {self.qual}")
             # at loop entry the ghost index is the start value; the spec's havoc makes it generic
+            outer_index = self.ctx.ghost.get("loop_index")
             self.ctx.ghost["loop_index"] = getattr(it, "lo", 0)
             holder = {}
 
@@ -1097,6 +1102,8 @@ class Exec:
                 holder["gen"] = it._pv_generic(self)  # (cond_fn, bind_fn) built after the havoc
                 return holder["gen"][0]()
             self.cut_loop(k, spec, s, cond, lambda: self.assign(s.target, holder["gen"][1]()))
+            # leaving the loop (exit path or break): the enclosing loop's ghost index is current again
+            self.ctx.ghost["loop_index"] = outer_index
             return
         items = self.iterate_concrete(it, what=f"for loop #{k} in {self.qual}")
         broke = False
@@ -1180,15 +1187,15 @@ class Exec:
             if isinstance(v, ast.Constant):
                 parts.append(str(v.value))
             else:
-                try:
-                    x = self.expr(v.value)
-                    if isinstance(x, (int, str)) and not isinstance(x, bool) and v.format_spec is None:
-                        parts.append(str(x))
-                    else:
-                        parts.append("<?>")
-                except (PyRaise, OutsideSubset):
-                    # formatting only feeds messages; unresolved pieces are opaque
-                    parts.append("<?>")
+                x = self.expr(v.value)  # evaluated faithfully: NameError etc. propagate
+                if v.format_spec is not None:
+                    self.expr(v.format_spec)
+                if isinstance(x, (int, str)) and not isinstance(x, bool) and v.format_spec is None:
+                    parts.append(str(x))
+                else:
+                    if x is None and v.format_spec is not None:
+                        raise PyRaise(make_exc(self.interp, "TypeError", "unsupported format string passed to NoneType.__format__"))
+                    parts.append("<?>")  # formatting itself is opaque
         return "".join(parts)
 
     def e_Lambda(self, e):
@@ -1803,6 +1810,22 @@ class Exec:
         except ReturnEx as r:
             return r.value
         return None
+
+
+_LOCALS_CACHE = {}
+
+
+def _local_names(node):
+    k = id(node)
+    if k not in _LOCALS_CACHE:
+        names = set()
+        for n in ast.walk(node):
+            if isinstance(n, ast.Name) and isinstance(n.ctx, ast.Store):
+                names.add(n.id)
+            elif isinstance(n, ast.ExceptHandler) and n.name:
+                names.add(n.name)
+        _LOCALS_CACHE[k] = names
+    return _LOCALS_CACHE[k]
 
 
 class NativeMethod:
